@@ -1,3 +1,5 @@
+//go:build go1.25
+
 package props
 
 // waitcondstep — bigbuff.WaitCond driven directly (C05: never a lost wake-up, nil only after the predicate
